@@ -1,16 +1,21 @@
-(* C14 — supplementary binary64 witness for finding C14-1 (DESIGN section 4, #18): in floating-point arithmetic
-   ten times 0.1 accumulates to 1 - 2^-53, which is also the largest random number the generator can return,
-   so the comparison `r < cumulative_sum` fails for every index and the fallback returns the LAST index - an
-   outcome of probability exactly 0.  Proved by computation with Coq's primitive floats (kernel primitives
-   float/add/sub/ltb/leb are listed by Print Assumptions; nothing else).  Replayed on the real code by the
-   harness sub-check `fallback_float`. *)
+(* C14 — supplementary binary64 witness (DESIGN section 4, #18): in floating-point arithmetic ten times 0.1 accumulates
+   to 1 - 2^-53, which is also the largest random number the generator can return, so the comparison
+   `r < cumulative_sum` fails for every index and the loop runs to its end.  AS CODED BEFORE fix
+   C14-rn2data-fallback-zero-probability the function then returned the LAST index - an outcome of probability exactly
+   0; the repaired function returns index 9, the last outcome of positive probability.  Proved by computation with
+   Coq's primitive floats (kernel primitives float/add/ltb/... are listed by Print Assumptions; nothing else).
+   Replayed on the real code by the harness sub-check `fallback`. *)
 From Coq Require Import Floats List ZArith.
 From QV.Model Require Import C14_Float.
 Import ListNotations.
 Local Open Scope float_scope.
 
-Lemma float_zero_probability_outcome_reachable :
-  rn2data_f witness_ps witness_r = 10%Z /\ nth 10 witness_ps 1 = 0 /\
+Lemma float_zero_probability_outcome_reachable_before_fix :
+  rn2data_f_before_fix witness_ps witness_r = 10%Z /\ nth 10 witness_ps 1 = 0 /\
   fold_left PrimFloat.add witness_ps 0 = witness_r /\
   (0 <=? witness_r) = true /\ (witness_r <? 1) = true /\ witness_r = 1 - 0x1p-53.
 Proof. vm_compute. repeat split. Qed.
+
+Lemma float_witness_after_fix :
+  rn2data_f witness_ps witness_r = 9%Z /\ (0 <? nth 9 witness_ps 0) = true.
+Proof. vm_compute. split; reflexivity. Qed.
